@@ -694,34 +694,38 @@ func main() {
 	if p, err := strconv.Atoi(os.Getenv("VERIF_PAR")); err == nil && p > 0 {
 		par = p
 	}
+	// a fixed set of worker labels: the counters of all children run by one worker
+	// accumulate under that label (keeps the evidence small)
 	var wg sync.WaitGroup
-	sem := make(chan struct{}, par)
+	todo := make(chan int, len(hs))
 	for i := range hs {
+		todo <- i
+	}
+	close(todo)
+	for w := 0; w < par; w++ {
 		wg.Add(1)
-		sem <- struct{}{}
-		go func(i int) {
+		go func(w int) {
 			defer wg.Done()
-			defer func() { <-sem }()
-			if r.Violations() > 60 {
-				return
+			label := fmt.Sprintf("w%d", w)
+			for i := range todo {
+				if r.Violations() > 60 {
+					continue
+				}
+				r.RunChild(label, self, nil, "hist", strconv.Itoa(i))
+				if r.Violations() == 0 {
+					_ = os.RemoveAll(filepath.Join(r.Scratch(), "child-"+label))
+				}
 			}
-			label := fmt.Sprintf("h%03d", i)
-			r.RunChild(label, self, nil, "hist", strconv.Itoa(i))
-			// the child's files are not needed unless it reported something
-			if r.Violations() == 0 {
-				_ = os.RemoveAll(filepath.Join(r.Scratch(), "child-"+label))
-				_ = os.Remove(filepath.Join(r.Scratch(), "child-"+label+".log"))
-			}
-		}(i)
+		}(w)
 	}
 	wg.Wait()
 
-	// aggregate the per-child counters
+	// aggregate the per-worker counters
 	agg := map[string]int64{}
 	for _, name := range []string{"crash_images", "histories", "d_positions", "images_loaded_writable", "images_readonly",
 		"images_completed", "writes_after_crash_ok", "overwrites_after_crash_ok", "reads_exact_content", "reads_gone_as_expected"} {
-		for i := range hs {
-			agg[name] += r.Counter(fmt.Sprintf("h%03d.%s", i, name))
+		for w := 0; w < par; w++ {
+			agg[name] += r.Counter(fmt.Sprintf("w%d.%s", w, name))
 		}
 	}
 	classes := map[string]int64{}
@@ -729,8 +733,8 @@ func main() {
 	tails := []string{"exact", "torn-next-record", "whole-extra-records", "extra-records-and-torn"}
 	for _, l := range lasts {
 		for _, t := range tails {
-			for i := range hs {
-				if c := r.Counter(fmt.Sprintf("h%03d.images.last_idx=%s,tail=%s", i, l, t)); c > 0 {
+			for w := 0; w < par; w++ {
+				if c := r.Counter(fmt.Sprintf("w%d.images.last_idx=%s,tail=%s", w, l, t)); c > 0 {
 					classes["last_idx="+l+",tail="+t] += c
 				}
 			}
